@@ -80,6 +80,14 @@ reg("C10",
     "exhaustive lattice enumeration + recorder attribute monitor + run-time existence probes in test/non-test builds", "DESIGN.md §4 C10")
 
 
+reg("C09",
+    "Exploration: random trait definitions x trait-mode option sets are expanded by real rustc; the recorder's input trait is "
+    "compared component by component (attributes, visibility, unsafe, header incl. generics/supertraits/where, every item) with the "
+    "first emitted item, permitting exactly the macro-owned mock attributes and the documented async rewrite (checked token for token).",
+    "Default bodies, associated types and `unsafe trait` are exercised only by pinned known-finding inputs (K1a, K1b, X2b).",
+    "expansion recorder + structural token-diff oracle modulo the documented rewrite", "DESIGN.md §4 C09")
+
+
 def manifest():
     hooks_commits = subprocess.run(["git", "-C", "/repo", "log", "--format=%H", "--grep=^verif hook"],
                                    stdout=subprocess.PIPE, text=True).stdout.split()
